@@ -400,6 +400,22 @@ pub open spec fn bucket_add_spec(b: Seq<Node>, n: Node) -> (Seq<Node>, bool) {
 impl Bucket {
     pub open spec fn wf(&self) -> bool { forall|i: int| 0 <= i < 8 ==> (#[trigger] self.nodes[i]).wf() }
 
+//@begin fn src/bucket.rs impl:Bucket pingable_nodes props=C10
+    pub fn pingable_nodes(&self) -> impl Iterator<Item = &Node> {
+        self.nodes.iter().filter(|node: &&Node| -> (b: bool)
+            ensures b == (st(**node) != NodeStatus::Bad), // @C10.bad_not_reported
+            { node.is_pingable() })
+    }
+//@end
+
+//@begin fn src/bucket.rs impl:Bucket pingable_nodes_mut props=C10
+    pub fn pingable_nodes_mut(&mut self) -> impl Iterator<Item = &mut Node> {
+        self.nodes.iter_mut().filter(|node: &&mut Node| -> (b: bool)
+            ensures b == (st(*old(*node)) != NodeStatus::Bad), // @C10.queries_marked_on_live_nodes_only
+            { node.is_pingable() })
+    }
+//@end
+
 //@begin fn src/bucket.rs impl:Bucket add_node props=C08
     pub fn add_node(&mut self, new_node: Node) -> (r: bool)
         requires new_node.wf(), old(self).wf(),
@@ -558,6 +574,42 @@ pub open spec fn placed(t: RoutingTable, i: int, n: Node) -> bool {
 pub open spec fn at(t: RoutingTable, i: int, k: int) -> Node { t.buckets[i].nodes[k] }
 pub open spec fn slot_is(t: RoutingTable, x: Node, i: int, k: int) -> bool { 0 <= i < t.buckets.len() && 0 <= k < 8 && t.buckets[i].nodes[k] == x }
 pub open spec fn present(t: RoutingTable, x: Node) -> bool { exists|i: int, k: int| #[trigger] slot_is(t, x, i, k) }
+/// some slot among buckets[0..bi) and the first ni slots of bucket bi holds a record of standing `want` with address `a`
+pub open spec fn has_status_upto(t: RoutingTable, want: NodeStatus, a: SocketAddr, bi: int, ni: int) -> bool {
+    exists|i: int, k: int| 0 <= i < t.buckets.len() && 0 <= k < 8 && (i < bi || (i == bi && k < ni))
+        && st(#[trigger] t.buckets[i].nodes[k]) == want && t.buckets[i].nodes[k].handle.addr == a
+}
+pub proof fn lemma_upto_step(t: RoutingTable, want: NodeStatus, a: SocketAddr, bi: int, ni: int)
+    requires 0 <= bi < t.buckets.len(), 0 <= ni < 8
+    ensures has_status_upto(t, want, a, bi, ni + 1) <==> has_status_upto(t, want, a, bi, ni) || (st(t.buckets[bi].nodes[ni]) == want && t.buckets[bi].nodes[ni].handle.addr == a)
+{
+    if has_status_upto(t, want, a, bi, ni + 1) {
+        let (i, k) = choose|i: int, k: int| 0 <= i < t.buckets.len() && 0 <= k < 8 && (i < bi || (i == bi && k < ni + 1))
+            && st(#[trigger] t.buckets[i].nodes[k]) == want && t.buckets[i].nodes[k].handle.addr == a;
+        if !(i == bi && k == ni) { assert(i < bi || (i == bi && k < ni)); }
+    }
+    if has_status_upto(t, want, a, bi, ni) {
+        let (i, k) = choose|i: int, k: int| 0 <= i < t.buckets.len() && 0 <= k < 8 && (i < bi || (i == bi && k < ni))
+            && st(#[trigger] t.buckets[i].nodes[k]) == want && t.buckets[i].nodes[k].handle.addr == a;
+        assert(i < bi || (i == bi && k < ni + 1));
+    }
+}
+pub proof fn lemma_upto_row(t: RoutingTable, want: NodeStatus, a: SocketAddr, bi: int)
+    requires 0 <= bi < t.buckets.len()
+    ensures has_status_upto(t, want, a, bi, 8) <==> has_status_upto(t, want, a, bi + 1, 0)
+{
+    if has_status_upto(t, want, a, bi, 8) {
+        let (i, k) = choose|i: int, k: int| 0 <= i < t.buckets.len() && 0 <= k < 8 && (i < bi || (i == bi && k < 8))
+            && st(#[trigger] t.buckets[i].nodes[k]) == want && t.buckets[i].nodes[k].handle.addr == a;
+        assert(i < bi + 1 || (i == bi + 1 && k < 0));
+    }
+    if has_status_upto(t, want, a, bi + 1, 0) {
+        let (i, k) = choose|i: int, k: int| 0 <= i < t.buckets.len() && 0 <= k < 8 && (i < bi + 1 || (i == bi + 1 && k < 0))
+            && st(#[trigger] t.buckets[i].nodes[k]) == want && t.buckets[i].nodes[k].handle.addr == a;
+        assert(i < bi || (i == bi && k < 8));
+    }
+}
+pub open spec fn named(hs: Seq<NodeHandle>, h: NodeHandle) -> bool { exists|j: int| 0 <= j < hs.len() && hs[j] == h }
 pub open spec fn placement_spec(num_same_bits: int, num_buckets: int) -> int { if num_same_bits >= num_buckets { num_buckets - 1 } else { num_same_bits } }
 // when the target bucket can take the node, `add_node` is exactly the bucket-level function on that bucket and a no-op elsewhere
 pub open spec fn no_split_step(o: RoutingTable, f: RoutingTable, node: Node) -> bool {
@@ -608,6 +660,166 @@ impl RoutingTable {
     pub open spec fn adds_nothing(old_t: RoutingTable, new_t: RoutingTable) -> bool {
         forall|m: Node| #[trigger] old_t.absent(m) ==> new_t.absent(m)
     }
+
+//@begin fn src/table.rs impl:RoutingTable new props=C08
+    pub fn new(node_id: NodeId) -> (r: RoutingTable)
+        ensures r.wf(), r.node_id == node_id, r.buckets.len() == 1, r.routers@ == Set::<SocketAddr>::empty(),
+            forall|m: Node| r.absent(m), // @C08.empty_at_start
+    {
+        let buckets = vec![Bucket::new()];
+
+        proof {
+            broadcast use filler_ax;
+            reveal(RoutingTable::routers_ok);
+            assert(buckets@.len() == 1);
+            assert(forall|k: int| 0 <= k < 8 ==> !real(#[trigger] buckets[0].nodes[k]));
+        }
+        RoutingTable {
+            buckets,
+            node_id,
+            routers: Default::default(),
+        }
+    }
+//@end
+
+//@begin fn src/table.rs impl:RoutingTable node_id
+    pub fn node_id(&self) -> (r: NodeId) ensures r == self.node_id {
+        self.node_id
+    }
+//@end
+
+//@begin fn src/table.rs impl:RoutingTable bucket_index_for_node props=C08,C09
+    pub fn bucket_index_for_node(&self, node_id: NodeId) -> (r: usize)
+        requires self.buckets.len() >= 1,
+        ensures r == placement_spec(lbc(self.node_id, node_id) as int, self.buckets.len() as int), r < self.buckets.len(), // @C08.lookup_uses_placement
+    {
+        broadcast use lbc_ax;
+        let bucket_index = leading_bit_count(self.node_id, node_id);
+
+        // Check the sorted bucket
+        if bucket_index < self.buckets.len() {
+            // Got the sorted bucket
+            bucket_index
+        } else {
+            // Grab the assorted bucket
+            self.buckets
+                .len()
+                .checked_sub(1)
+                .expect("no buckets present in RoutingTable - implementation error")
+        }
+    }
+//@end
+
+//@begin fn src/table.rs impl:RoutingTable add_nodes props=C08,C12
+    pub fn add_nodes(&mut self, node: Node, questionable_nodes: &[NodeHandle])
+        requires old(self).wf(), node.wf(), old(self).fresh_or_absent(node),
+        ensures final(self).wf(), final(self).node_id == old(self).node_id, final(self).routers@ == old(self).routers@,
+            final(self).buckets.len() >= old(self).buckets.len(),
+            // nothing becomes known except the responder and the handles it named
+            forall|m: Node| #[trigger] old(self).absent(m) && !same_handle(m, node) && !named(questionable_nodes@, m.handle) ==> final(self).absent(m), // @C12.only_responder_and_named_admitted
+    {
+        self.add_node(node);
+
+        // Add the payload nodes as questionable
+        for questionable_node in it: questionable_nodes
+            invariant self.wf(), self.node_id == old(self).node_id, self.routers@ == old(self).routers@,
+                self.buckets.len() >= old(self).buckets.len(),
+                forall|m: Node| #[trigger] old(self).absent(m) && !same_handle(m, node) && !named(questionable_nodes@.take(it.index@), m.handle) ==> self.absent(m),
+        {
+            let ghost before = *self;
+            let ghost k = it.index@;
+            self.add_node(Node::as_questionable(
+                questionable_node.id,
+                questionable_node.addr,
+            ));
+            proof {
+                assert(questionable_nodes@.take(k + 1)[k] == questionable_nodes@[k]);
+                assert forall|m: Node| #[trigger] old(self).absent(m) && !same_handle(m, node) && !named(questionable_nodes@.take(k + 1), m.handle) implies self.absent(m) by {
+                    assert forall|j: int| 0 <= j < k implies questionable_nodes@.take(k)[j] != m.handle by {
+                        assert(questionable_nodes@.take(k + 1)[j] == questionable_nodes@.take(k)[j]);
+                    }
+                    assert(before.absent(m));
+                    assert(questionable_nodes@.take(k + 1)[k] != m.handle);
+                }
+            }
+        }
+        proof { assert(questionable_nodes@.take(questionable_nodes@.len() as int) =~= questionable_nodes@); }
+    }
+//@end
+
+//@begin fn src/table.rs impl:RoutingTable load_contacts props=C10
+    pub fn load_contacts(&self) -> (r: (HashSet<SocketAddr>, HashSet<SocketAddr>))
+        ensures
+            forall|a: SocketAddr| r.0@.contains(a) <==> has_status_upto(*self, NodeStatus::Good, a, self.buckets.len() as int, 0), // @C10.contacts_good_exact
+            forall|a: SocketAddr| r.1@.contains(a) <==> has_status_upto(*self, NodeStatus::Questionable, a, self.buckets.len() as int, 0), // @C10.contacts_questionable_exact
+    {
+        broadcast use sockaddr_key_model, vstd::std_specs::hash::group_hash_axioms;
+        let mut good = HashSet::new();
+        let mut questionable = HashSet::new();
+
+        for bucket in itb: &self.buckets
+            invariant
+                forall|a: SocketAddr| good@.contains(a) <==> has_status_upto(*self, NodeStatus::Good, a, itb.index@, 0),
+                forall|a: SocketAddr| questionable@.contains(a) <==> has_status_upto(*self, NodeStatus::Questionable, a, itb.index@, 0),
+        {
+            let ghost bi = itb.index@;
+            assert(*bucket == self.buckets[bi]);
+            for node in itn: bucket.nodes.iter()
+                invariant
+                    0 <= bi < self.buckets.len(), *bucket == self.buckets[bi],
+                    itn.snapshot@.remaining().len() == 8,
+                    forall|i: int| 0 <= i < 8 ==> *(#[trigger] itn.snapshot@.remaining()[i]) == bucket.nodes[i],
+                    forall|a: SocketAddr| good@.contains(a) <==> has_status_upto(*self, NodeStatus::Good, a, bi, itn.index@),
+                    forall|a: SocketAddr| questionable@.contains(a) <==> has_status_upto(*self, NodeStatus::Questionable, a, bi, itn.index@),
+            {
+                broadcast use sockaddr_key_model, vstd::std_specs::hash::group_hash_axioms;
+                let ghost ni = itn.index@;
+                assert(*node == self.buckets[bi].nodes[ni]);
+                let ghost g0 = good@;
+                let ghost q0 = questionable@;
+                if node.status() == NodeStatus::Good {
+                    good.insert(node.handle().addr);
+                } else if node.status() == NodeStatus::Questionable {
+                    questionable.insert(node.handle().addr);
+                }
+                proof {
+                    let x = self.buckets[bi].nodes[ni];
+                    assert(0 <= ni < 8);
+                    assert(good@ == (if st(x) == NodeStatus::Good { g0.insert(x.handle.addr) } else { g0 }));
+                    assert(questionable@ == (if st(x) == NodeStatus::Questionable { q0.insert(x.handle.addr) } else { q0 }));
+                    assert forall|a: SocketAddr| good@.contains(a) <==> has_status_upto(*self, NodeStatus::Good, a, bi, ni + 1) by {
+                        lemma_upto_step(*self, NodeStatus::Good, a, bi, ni);
+                    }
+                    assert forall|a: SocketAddr| questionable@.contains(a) <==> has_status_upto(*self, NodeStatus::Questionable, a, bi, ni + 1) by {
+                        lemma_upto_step(*self, NodeStatus::Questionable, a, bi, ni);
+                    }
+                }
+            }
+            proof {
+                assert forall|a: SocketAddr| good@.contains(a) <==> has_status_upto(*self, NodeStatus::Good, a, bi + 1, 0) by {
+                    lemma_upto_row(*self, NodeStatus::Good, a, bi);
+                }
+                assert forall|a: SocketAddr| questionable@.contains(a) <==> has_status_upto(*self, NodeStatus::Questionable, a, bi + 1, 0) by {
+                    lemma_upto_row(*self, NodeStatus::Questionable, a, bi);
+                }
+            }
+        }
+
+        (good, questionable)
+    }
+//@end
+
+//@begin fn src/table.rs impl:RoutingTable find_node_mut props=C10,C12
+    pub fn find_node_mut<'a>(&'a mut self, node: &'_ NodeHandle) -> Option<&'a mut Node>
+        requires old(self).buckets.len() >= 1,
+    {
+        let bucket_index = self.bucket_index_for_node(node.id);
+        let bucket = self.buckets.get_mut(bucket_index)?;
+        bucket.pingable_nodes_mut().find(|n: &&mut Node| -> (b: bool)
+            ensures b == (old(*n).handle == *node), // @C12.query_marks_only_matching_known_node
+            { n.handle() == node })
+    }
+//@end
 
 //@begin fn src/table.rs impl:RoutingTable add_node props=C08,C12
     pub fn add_node(&mut self, node: Node)
@@ -1039,6 +1251,91 @@ pub fn bucket_placement(num_same_bits: usize, num_buckets: usize) -> (r: usize)
         num_buckets - 1
     } else {
         ideal_index
+    }
+}
+//@end
+
+
+// ================= C09: order in which ClosestNodes walks the buckets =================
+/// rank of bucket index c in the walk that starts at s: s, s+1, s-1, s+2, s-2, ...
+pub open spec fn meas(s: int, c: int) -> int {
+    if c == s { 0 } else if c > s { 2 * (c - s) - 1 } else { 2 * (s - c) }
+}
+
+//@props C09
+pub proof fn lemma_meas_injective(s: int, a: int, b: int)
+    requires meas(s, a) == meas(s, b)
+    ensures a == b // @C09.each_bucket_once
+{}
+//@props C09
+pub proof fn lemma_meas_start_first(s: int, c: int)
+    ensures meas(s, c) >= 0, meas(s, c) == 0 <==> c == s // @C09.start_bucket_first
+{}
+//@begin fn src/table.rs - next_bucket_index props=C09
+pub fn next_bucket_index(num_buckets: usize, start_index: usize, curr_index: usize) -> (r: Option<usize>)
+    requires num_buckets <= 160, start_index <= num_buckets, curr_index < num_buckets || curr_index == start_index,
+    ensures (match r {
+        Some(j) => j < num_buckets && meas(start_index as int, j as int) > meas(start_index as int, curr_index as int)
+            && forall|k: int| 0 <= k < num_buckets && meas(start_index as int, k) > meas(start_index as int, curr_index as int)
+                 ==> meas(start_index as int, k) >= meas(start_index as int, j as int),
+        None => forall|k: int| 0 <= k < num_buckets ==> meas(start_index as int, k) <= meas(start_index as int, curr_index as int),
+    }), // @C09.walk_nearest_bucket_first_each_once
+{
+    // Since we prefer going right first, that means if we are on the right side then we want to go
+    // to the same offset on the left, however, if we are on the left we want to go 1 past the offset
+    // to the right. All assuming we can actually do this without going out of bounds.
+    match curr_index.cmp(&start_index) {
+        Ordering::Equal => {
+            let right_index = start_index.checked_add(1);
+            let left_index = start_index.checked_sub(1);
+
+            if index_is_in_bounds(num_buckets, right_index) {
+                Some(right_index.unwrap())
+            } else if index_is_in_bounds(num_buckets, left_index) {
+                Some(left_index.unwrap())
+            } else {
+                None
+            }
+        }
+        Ordering::Greater => {
+            let offset = curr_index - start_index;
+
+            let left_index = start_index.checked_sub(offset);
+            let right_index = curr_index.checked_add(1);
+
+            if index_is_in_bounds(num_buckets, left_index) {
+                Some(left_index.unwrap())
+            } else if index_is_in_bounds(num_buckets, right_index) {
+                Some(right_index.unwrap())
+            } else {
+                None
+            }
+        }
+        Ordering::Less => {
+            let offset = (start_index - curr_index) + 1;
+
+            let right_index = start_index.checked_add(offset);
+            let left_index = curr_index.checked_sub(1);
+
+            if index_is_in_bounds(num_buckets, right_index) {
+                Some(right_index.unwrap())
+            } else if index_is_in_bounds(num_buckets, left_index) {
+                Some(left_index.unwrap())
+            } else {
+                None
+            }
+        }
+    }
+}
+//@end
+//@begin fn src/table.rs - index_is_in_bounds props=C09
+/// Returns true if the overflow checked index is in bounds of the given length.
+pub fn index_is_in_bounds(length: usize, checked_index: Option<usize>) -> (r: bool)
+    ensures r == (checked_index is Some && checked_index->0 < length)
+{
+    match checked_index {
+        Some(index) => index < length,
+        None => false,
     }
 }
 //@end
